@@ -231,6 +231,17 @@ def threshold_words(r, L):
     return out
 
 
+
+def outside_outcomes(p2, r, L, rng):
+    """a draw after a rejected first word must land on the SAME r outcomes the first stage is uniform over: any other outcome takes word pairs
+    away from them.  Returns (word, outcome) or None."""
+    B = 1 << L
+    ws = [0, 1, B - 1, B // 2, B // 3, (2 * B) // 3] + [((2 * c + 1) * B) // (2 * r) for c in range(min(r, 16))] + [rng.below(B) for _ in range(40)]
+    for w, v in zip(ws, p2.many(ws)):
+        if isinstance(v, int) and not (0 <= v < r):
+            return w, v
+    return None
+
 def second_stage_counts(binary, build, rng, label, r, L, mk, mk2, parse, max_first=2):
     """the draw AFTER a rejected first word must again map the accepted words onto the values in exactly equal numbers.  First words are
     taken from the decision boundary of the published sampler and used when the implementation rejects them (needs a second word)."""
@@ -244,6 +255,12 @@ def second_stage_counts(binary, build, rng, label, r, L, mk, mk2, parse, max_fir
             continue                                    # the request does not get further with a second word either (not a rejection)
         vals = sorted({0, 1, r - 1, r // 2} | {(w * r) >> L for w in threshold_words(r, L)} | {rng.below(r) for _ in range(12)}) if r > 8 else list(range(r))
         lab2 = "%s after the rejected first word %d" % (label, w1)
+        bad = outside_outcomes(p2, r, L, rng)
+        if bad:
+            calls += p2.calls
+            yield {"kind": "oracle", "build": build, "request": mk2(w1, bad[0]), "impl": "outcome %d" % bad[1], "model": "",
+                   "oracle": "%s: the word %d gives outcome offset %d, outside the %d outcomes the first draw is uniform over - the draw after a rejection is not uniform over the same outcomes" % (lab2, bad[0], bad[1], r)}
+            continue
         msg2, info2 = count_values(p2, r, L, [v for v in vals if 0 <= v < r], rng, lab2)
         calls += p2.calls
         if msg2 == "inconclusive":
@@ -291,6 +308,12 @@ def first_draw_counts(binary, build, rng, specs, what):
                     for w1 in range(a, b + 1):
                         p2 = Prober(binary, (lambda W, w1=w1: mk2(w1, W)), parse)
                         lab2 = "%s after the rejected first word %d" % (label, w1)
+                        bad = outside_outcomes(p2, r, L, rng)
+                        if bad:
+                            total += p2.calls
+                            yield {"kind": "oracle", "build": build, "request": mk2(w1, bad[0]), "impl": "outcome %d" % bad[1], "model": "",
+                                   "oracle": "%s: the word %d gives outcome offset %d, outside the %d outcomes the first draw is uniform over - the draw after a rejection is not uniform over the same outcomes" % (lab2, bad[0], bad[1], r)}
+                            continue
                         msg2, info2 = count_values(p2, r, L, list(range(r)), rng, lab2)
                         total += p2.calls
                         if msg2 == "inconclusive":
